@@ -396,12 +396,20 @@ func stackScenarios() []*sched.Scenario {
 		running.Store(true)
 		var got int
 		var ok, ret bool
+		var pushed, gaveUpWithElement vatomic.Bool
 		w := vrt.Spawn(func() {
-			got, ok = s.PopOrWait(running.Load)
+			got, ok = s.PopOrWait(func() bool {
+				// the condition is only consulted when there is nothing to pop: the only Push has not returned yet
+				r := running.Load()
+				if !r && pushed.Load() {
+					gaveUpWithElement.Store(true)
+				}
+				return r
+			})
 			ret = true
 		})
 		vrt.Par(
-			func() { s.Push(7) },
+			func() { s.Push(7); pushed.Store(true) },
 			func() { running.Store(false); s.SignalShutdown() },
 		)
 		// either the element or the shutdown must release the waiter
@@ -412,6 +420,9 @@ func stackScenarios() []*sched.Scenario {
 		}
 		if !ok && s.Size() != 1 {
 			vrt.Fail("stack|lost-element", "PopOrWait failed but the stack has %d elements", s.Size())
+		}
+		if !ok && gaveUpWithElement.Load() {
+			vrt.Fail("stack|PopOrWait-gave-up-with-element", "PopOrWait returned without an element although the element had been pushed before it gave up and nothing else pops")
 		}
 		if ok && s.Size() != 0 {
 			vrt.Fail("stack|dup-element", "PopOrWait succeeded but the stack still has %d elements", s.Size())
